@@ -827,6 +827,46 @@ func init() {
 			w.Close()
 		}
 		r.Set("aborts_after_a_failed_resume", failedResumes)
+		// a Close that fails at its k-th commit (the flush of the buffered chunks, the file record, the marker), followed
+		// by Abort on the same stream: the upload has not completed, the abort leaves nothing of it behind
+		var failedCloses int64
+		for _, tracked := range []bool{false, true} {
+			for k := 1; k <= 4; k++ {
+				w := world.New()
+				b := c18Bucket(w, tracked)
+				st, err := b.OpenUploadStreamWithID(w.Ctx, "fc", "fc", options.GridFSUpload().SetChunkSizeBytes(4))
+				if err != nil {
+					r.Broken("open: %v", err)
+					w.Close()
+					continue
+				}
+				st.VerifSetBufferSize(8)
+				_, _ = st.Write([]byte("0123456789")) // 8 bytes flushed by the write, 2 wait for Close
+				calls := 0
+				w.Store.Hook = func() {
+					calls++
+					if calls == k {
+						w.Store.FailNext = 1
+					}
+				}
+				cerr := st.Close()
+				w.Store.Hook = nil
+				w.Store.FailNext = 0
+				if cerr == nil {
+					w.Close()
+					continue // Close performs fewer than k commits
+				}
+				failedCloses++
+				aerr := st.Abort()
+				count := func(c lungo.ICollection) int64 { n, _ := c.CountDocuments(w.Ctx, bD()); return n }
+				chunks, files, markers := count(b.GetChunksCollection(w.Ctx)), count(b.GetFilesCollection(w.Ctx)), count(b.GetMarkersCollection(w.Ctx))
+				if chunks != 0 || files != 0 || markers != 0 {
+					r.Violation("abort-after-failed-close-leaves-data", fmt.Sprintf("tracked=%v: Close failed at its commit %d (%v), Abort on the same stream returned %v; afterwards %d chunk(s), %d file record(s), %d marker(s) remain", tracked, k, cerr, aerr, chunks, files, markers), map[string]interface{}{"tracked": tracked, "failing_commit_of_close": k})
+				}
+				w.Close()
+			}
+		}
+		r.Set("aborts_after_a_failed_close", failedCloses)
 		// several uploads under one name: a download by name picks the revision asked for (0, 1, ... from the oldest,
 		// -1, -2, ... from the newest; the default is the newest)
 		{
